@@ -6,7 +6,7 @@ mod recording_writer;
 mod text;
 
 use checked_reader::CheckedReader;
-use recording_writer::RecordingWriter;
+use recording_writer::{OffsetWriter, RecordingWriter};
 use rl2tp::avp::types::result_code::CodeValue;
 use rl2tp::avp::types::*;
 use rl2tp::avp::AVP;
@@ -260,6 +260,21 @@ fn run_case(line: &str) -> R<String> {
             match r {
                 Ok(d) => format!("Ok {} glen={}", hex(&d), glen),
                 Err(_) => format!("PANIC glen={}", glen),
+            }
+        }
+        "ENCV" => {
+            // encode at a (virtual) writer position: ENCV <base> <M|A> <value>
+            let base: usize = arg(1).parse().map_err(|_| "base".to_string())?;
+            let r = if arg(2) == "A" {
+                let a = parse_avp(arg(3))?;
+                catch_unwind(AssertUnwindSafe(|| { let mut w = OffsetWriter::new(base); a.write(&mut w); (w.data, w.low.len()) }))
+            } else {
+                let m = parse_msg(arg(3))?;
+                catch_unwind(AssertUnwindSafe(|| { let mut w = OffsetWriter::new(base); m.write(&mut w); (w.data, w.low.len()) }))
+            };
+            match r {
+                Ok((d, low)) => format!("Ok {} low={}", hex(&d), low),
+                Err(_) => "PANIC".to_string(),
             }
         }
         "ENCS" => {
